@@ -42,7 +42,54 @@ pub fn cfg() -> GenCfg {
     }
 }
 
+/// a table holding a key that can not be found again (a table changed after it was used as a
+/// key, or a closure), whose only other reference is then dropped; garbage; then the table is
+/// walked. The key object is still referenced by the table (ordered key list and bucket).
+fn unfindable_key_program(c: &mut Choices) -> Program {
+    use std::rc::Rc;
+    let var = |n: &str| Expr::Var(n.into());
+    let int = |i: i64| Expr::Int(i);
+    let mk = |n: i64| Expr::CallNative("mk_str".into(), vec![Expr::Int(n)]);
+    let mut body = vec![Stmt::SetVar("t".into(), Expr::CreateTable), Stmt::SetVar("k".into(), Expr::CreateTable)];
+    let closure_key = c.chance(60);
+    if closure_key {
+        body[1] = Stmt::SetVar("k".into(), Expr::Closure(Rc::new(ClosureDef { id: 0, params: vec![], body: vec![Stmt::Return(int(1))] })));
+    }
+    if c.bool() {
+        body.push(Stmt::SetProp(mk(5), var("t"), int(1)));
+    }
+    body.push(Stmt::SetProp(mk(7), var("t"), var("k")));
+    if !closure_key {
+        body.push(Stmt::SetProp(int(2), var("k"), Expr::Str("x".into())));
+    }
+    if c.bool() {
+        body.push(Stmt::SetProp(mk(6), var("t"), int(2)));
+    }
+    body.push(Stmt::SetGlobal("keep_unfindable".into(), var("t")));
+    body.push(Stmt::SetVar("k".into(), int(0)));
+    let n = 1 + c.draw(12) as i64;
+    body.push(Stmt::Repeat(int(n), None, Box::new(Stmt::SetGlobal("sink_".into(), mk(20)))));
+    match c.draw(4) {
+        0 => body.push(Stmt::ForEach { i: Some("i".into()), k: Some("kk".into()), v: Some("vv".into()), iterable: var("t"), body: Box::new(crate::genprog::log_stmt(Expr::Len(Box::new(var("kk"))))) }),
+        1 => body.push(Stmt::Repeat(int(3), Some("i".into()), Box::new(crate::genprog::log_stmt(Expr::Get(Box::new(var("t")), Box::new(var("i"))))))),
+        2 => body.push(crate::genprog::log_stmt(Expr::PopTable(Box::new(var("t"))))),
+        _ => body.push(crate::genprog::log_stmt(Expr::Call("std.to_array".into(), usize::MAX, vec![var("t")]))),
+    }
+    body.push(crate::genprog::log_stmt(Expr::Len(Box::new(var("t")))));
+    Program {
+        funcs: vec![FuncDef { id: 0, name: "main".into(), module: vec![], params: vec![], body }],
+        root: ModuleDef { name: String::new(), functions: vec![0], submodules: vec![], imports: vec![] },
+        globals: vec!["keep_unfindable".into(), "sink_".into()],
+    }
+}
+
 fn decode(bytes: &[u8]) -> (Program, Vec<u8>) {
+    if (215..230).contains(&bytes.first().copied().unwrap_or(0)) {
+        let mut c = Choices::new(&bytes[1..]);
+        let p = unfindable_key_program(&mut c);
+        let sched: Vec<u8> = bytes.iter().rev().take(24).copied().collect();
+        return (p, sched);
+    }
     let mut c = Choices::new(bytes);
     if c.chance(70) {
         // std-library programs: natives that re-enter the VM for allocating key functions and
@@ -308,7 +355,13 @@ fn run_case(prog: &Program, sched_bytes: &[u8]) -> CaseOut {
     // programs the reference interpreter cannot finish with a small fuel (loops that grow the table
     // they iterate, ...) would be re-run dozens of times with a collection per allocation: skip
     let r = crate::refsem::run_reference(prog, 20_000);
-    if let Err(crate::refsem::ErrKind::Undefined(w)) = &r.outcome {
+    // (what a table / function key *means* is not defined, but a collection must not free an
+    // object the table still references: those programs stay in, judged by the differential and
+    // the heap audit only)
+    if let Err(crate::refsem::ErrKind::Undefined(w)) = &r.outcome.as_ref().map_err(|e| match e {
+        crate::refsem::ErrKind::Undefined(w) if (*w == "table_key" || *w == "function_key") && prog.globals.iter().any(|g| g == "keep_unfindable") => crate::refsem::ErrKind::InvalidArgument,
+        other => other.clone(),
+    }) {
         return CaseOut { verdict: Verdict::Discard(w), nontrivial: false, labels, fingerprint: fp, execs: 0 };
     }
     let compiled = match compile_program(prog) {
